@@ -3,12 +3,18 @@
    unify, both sides are zonked with the recorded solutions and handed to the conversion test of
    Oracle/Infer.v, whose success implies definitional equality (convb_sound); scope (solutions of
    top-level holes must be closed) and acyclicity of the store are checked on the exported store.
-   Reflexivity on hole-free terms is the theorem below for the mirror of the hole-free arms. The
-   store-level invariants of a Model B mirror of unify (only-fills, acyclic, scoped) are not proved
-   in this development yet; D9 (a hole copied by `open` loses its identity) is a recorded finding. *)
+   Reflexivity on hole-free terms is the theorem below for the mirror of the hole-free arms.
+   Consistency of the store is a theorem of Model B (the store-passing mirror of unify / type_check
+   that the C12 and MB streams compare with the implementation): for every input, unification and
+   type checking only EXTEND the store - a recorded solution is never changed or removed, cells are
+   only appended - and the cell that unify assigns is an unsolved one, because a weak-head normal
+   form that is a hole is an unsolved hole (Proofs/StoreProofs.v, StoreTc.v). Acyclicity and scope of
+   the solutions are validated per instance, not proved; D9 (a hole copied by `open` loses its
+   identity) is a recorded finding. *)
 From Coq Require Import List ZArith Bool Relations.
 Import ListNotations.
 Require Import Gram.Model.Term Gram.Model.DeBruijn Gram.Model.Eval Gram.Spec.Typing Gram.Oracle.Infer Gram.Proofs.InferSound Gram.Proofs.ConvProofs.
+Require Import Gram.Model.ModelB Gram.Proofs.StoreProofs Gram.Proofs.StoreTc.
 
 Theorem C12_validator_sound : forall fuel G a b, convb fuel G a b = Some true -> conv G a b.
 Proof. exact convb_sound. Qed.
@@ -24,3 +30,30 @@ Theorem C12_reduct : forall t G t', step t = Some t' -> conv G t t'.
 Proof. exact step_in_conv. Qed.
 Check C12_reduct : forall t G t', step t = Some t' -> conv G t t'.
 Print Assumptions C12_reduct.
+
+Theorem C12_unify_only_extends_the_store : forall f s D a b ok s',
+  unifyB f s D a b = Some (ok, s') ->
+  length s <= length s' /\ forall id t, sget s id = Some t -> sget s' id = Some t.
+Proof. exact unifyB_ext. Qed.
+Check C12_unify_only_extends_the_store : forall f s D a b ok s',
+  unifyB f s D a b = Some (ok, s') ->
+  length s <= length s' /\ forall id t, sget s id = Some t -> sget s' id = Some t.
+Print Assumptions C12_unify_only_extends_the_store.
+
+Theorem C12_whnf_hole_is_unsolved : forall f s D t id sh s', whnfB f s D t = Some (THole id sh, s') -> sget s' id = None.
+Proof. exact whnfB_hole_unsolved. Qed.
+Check C12_whnf_hole_is_unsolved : forall f s D t id sh s', whnfB f s D t = Some (THole id sh, s') -> sget s' id = None.
+Print Assumptions C12_whnf_hole_is_unsolved.
+
+Theorem C12_type_check_only_extends_the_store : forall f s G D t r,
+  tcB f s G D t = Some r ->
+  length s <= length (b_st r) /\ forall id u, sget s id = Some u -> sget (b_st r) id = Some u.
+Proof. exact tcB_ext. Qed.
+Check C12_type_check_only_extends_the_store : forall f s G D t r,
+  tcB f s G D t = Some r ->
+  length s <= length (b_st r) /\ forall id u, sget s id = Some u -> sget (b_st r) id = Some u.
+Print Assumptions C12_type_check_only_extends_the_store.
+
+(* non-vacuity: unifying the unsolved hole 0 with `int` solves exactly that cell *)
+Example C12_example : unifyB 10 [None; Some TBool] [] (THole 0 0) TInt = Some (true, [Some TInt; Some TBool]).
+Proof. vm_compute. reflexivity. Qed.
